@@ -6,9 +6,9 @@ CONSTANTS
   Preferred = 17
   Creds <- CCreds
   MaxReferrals = 5
-  HintsOnFailed = FALSE
+  HintsOnFailed = TRUE
   BoundReferrals = TRUE
-  UnsolicitedFromTkt = TRUE
+  UnsolicitedFromTkt = FALSE
   Faithful = TRUE
   Codes = {6}
   MaxLogins = 3
